@@ -86,6 +86,17 @@ def run_impl(case):
                     except Exception:
                         pass
                     ec.set_event_data(mk_particles(case["particles"]))
+                elif case.get("moved_from"):
+                    # one object, one list of Particle objects: evaluated once where the particles were before, then the SAME
+                    # objects are moved in place (x, y setters) to their final positions and the object is asked again
+                    plist = mk_particles([dict(spec, x=mf["x"], y=mf["y"]) for spec, mf in zip(case["particles"], case["moved_from"])])
+                    ec = EventCharacteristics(plist)
+                    try:
+                        ec.eccentricity(case["n"], case["m"], case["weight"])
+                    except Exception:
+                        pass
+                    for pobj, spec in zip(plist, case["particles"]):
+                        pobj.x, pobj.y = spec["x"], spec["y"]
                 else:
                     ec = EventCharacteristics(mk_particles(case["particles"]))
                 v = ec.eccentricity(case["n"], case["m"], case["weight"]) if not case.get("direct") else \
@@ -113,6 +124,13 @@ def run_impl(case):
                     except Exception:
                         pass
                     ec.set_event_data(mk_lattice(case))
+                elif case.get("twice"):
+                    # the same lattice is asked for another harmonic first; the densities are NOT written again in between
+                    ec = EventCharacteristics(mk_lattice(case))
+                    try:
+                        ec.eccentricity(case["twice"], case["m"])
+                    except Exception:
+                        pass
                 else:
                     ec = EventCharacteristics(mk_lattice(case))
                 v = ec.eccentricity(case["hn"], case["m"])
@@ -272,8 +290,10 @@ def gen_lattice(rng):
     case = {"kind": "lattice", "hn": rng.choice([1, 2, 2, 3, 4, 5]), "m": rng.choice([None, None, 1, 2, 3, 4]),
             "ext": ext, "n": n, "dens": dens}
     r = rng.random()
-    if r < 0.35:
+    if r < 0.25:
         case["late_fill"] = rng.choice(["zeros", "other"])
+    elif r < 0.45:
+        case["twice"] = rng.choice([1, 2, 3, 4])
     elif r < 0.7:
         if rng.random() < 0.8:
             ext2 = []
@@ -290,6 +310,21 @@ def gen_case(rng, small=False):
     if rng.random() < 0.25 and not small:
         return gen_lattice(rng)
     case = gen_particles(rng, small)
+    if not small and rng.random() < 0.15 and case.get("particles") and all(p.get("x") is not None and p.get("y") is not None for p in case["particles"]):
+        # the same Particle objects sat elsewhere (rotated by a quarter turn / mirrored / shifted) when the object was first asked
+        how = rng.choice(["rot", "mirror", "shift"])
+        mv = []
+        for p in case["particles"]:
+            q2 = dict(p)
+            if how == "rot":
+                q2["x"], q2["y"] = -p["y"], p["x"]
+            elif how == "mirror":
+                q2["x"] = -p["x"]
+            else:
+                q2["x"], q2["y"] = p["x"] + 1.0, p["y"] - 0.5
+            mv.append(q2)
+        case["moved_from"] = mv
+        return case
     if not small and rng.random() < 0.15:
         pv = gen_lattice(rng)
         case["prev"] = {"kind": "lattice", "ext": pv["ext"], "n": pv["n"], "dens": pv["dens"]} if rng.random() < 0.5 else \
